@@ -57,7 +57,7 @@ func Walk(v Visitor, n Node) {
 			Walk(v, n.Member)
 		}
 	case *BranchStatement:
-		if n != nil {
+		if n != nil && n.Label != nil {
 			Walk(v, n.Label)
 		}
 	case *CallExpression:
@@ -117,7 +117,9 @@ func Walk(v Visitor, n Node) {
 		}
 	case *FunctionLiteral:
 		if n != nil {
-			Walk(v, n.Name)
+			if n.Name != nil {
+				Walk(v, n.Name)
+			}
 			for _, p := range n.ParameterList.List {
 				Walk(v, p)
 			}
@@ -187,7 +189,9 @@ func Walk(v Visitor, n Node) {
 	case *TryStatement:
 		if n != nil {
 			Walk(v, n.Body)
-			Walk(v, n.Catch)
+			if n.Catch != nil {
+				Walk(v, n.Catch)
+			}
 			Walk(v, n.Finally)
 		}
 	case *UnaryExpression:
